@@ -11,59 +11,6 @@ Import ListNotations.
 Local Open Scope nat_scope.
 Ltac Zify.zify_post_hook ::= Z.div_mod_to_equations.
 
-(* ------------------------------------------------------------------ lanes <-> bytes *)
-
-Lemma unlanes_length w l : length (unlanes w l) = w * length l.
-Proof.
-  unfold unlanes. induction l as [|x l IH]; [cbn; lia|]. cbn [flat_map length]. rewrite app_length, le_bytes_length, IH. lia.
-Qed.
-
-Lemma chunks_app {A} w n (a b : list A) : length a = w -> chunks w (S n) (a ++ b) = a :: chunks w n b.
-Proof.
-  intros H. cbn [chunks]. rewrite firstn_app, skipn_app, H, Nat.sub_diag. cbn [firstn skipn].
-  rewrite app_nil_r. subst w. rewrite firstn_all, skipn_all. reflexivity.
-Qed.
-
-Lemma lanes_app w a b : 0 < w -> length a = w -> lanes w (a ++ b) = le_num a :: lanes w b.
-Proof.
-  intros Hw H. unfold lanes. rewrite app_length, H.
-  assert (E : (w + length b) / w = S (length b / w))
-    by (replace (w + length b) with (1 * w + length b) by lia; rewrite Nat.div_add_l by lia; lia).
-  rewrite E.
-  rewrite chunks_app by exact H. reflexivity.
-Qed.
-
-Lemma lanes_unlanes w l : 0 < w -> lanes w (unlanes w l) = map (fun x => (x mod 256 ^ N.of_nat w)%N) l.
-Proof.
-  intros Hw. induction l as [|x l IH]; [unfold lanes; cbn; rewrite Nat.div_0_l by lia; reflexivity|].
-  change (unlanes w (x :: l)) with (le_bytes w x ++ unlanes w l).
-  rewrite lanes_app by (try apply le_bytes_length; lia). rewrite IH, le_num_le_bytes. reflexivity.
-Qed.
-
-Lemma unlanes_lanes w : 0 < w -> forall n v, length v = w * n -> bytes_ok v -> unlanes w (lanes w v) = v.
-Proof.
-  intros Hw. induction n as [|n IH]; intros v L B.
-  - destruct v; [|cbn in L; lia]. unfold lanes. cbn. rewrite Nat.div_0_l by lia. reflexivity.
-  - rewrite <- (firstn_skipn w v) at 1.
-    assert (Lf : length (firstn w v) = w) by (rewrite firstn_length; lia).
-    rewrite lanes_app by (try exact Lf; lia).
-    change (unlanes w (le_num (firstn w v) :: lanes w (skipn w v)))
-      with (le_bytes w (le_num (firstn w v)) ++ unlanes w (lanes w (skipn w v))).
-    rewrite IH by (try (rewrite skipn_length; lia); apply Forall_skipn; exact B).
-    rewrite <- Lf at 1. rewrite le_bytes_le_num by (apply Forall_firstn; exact B). apply firstn_skipn.
-Qed.
-
-Lemma map2_length {A B C} (f : A -> B -> C) a b : length a = length b -> length (map2 f a b) = length a.
-Proof. revert b. induction a as [|x a IH]; intros [|y b] H; cbn in *; try lia. rewrite IH by lia. reflexivity. Qed.
-
-(** lane-level form of a lanewise addition of two registers given in lane form *)
-Lemma add_lanes_unlanes w L1 L2 :
-  0 < w ->
-  add_lanes w (unlanes w L1) (unlanes w L2) =
-  unlanes w (map2 (fun x y => ((x + y) mod 2 ^ (8 * N.of_nat w))%N)
-                  (map (fun x => (x mod 256 ^ N.of_nat w)%N) L1) (map (fun x => (x mod 256 ^ N.of_nat w)%N) L2)).
-Proof. intros Hw. unfold add_lanes. rewrite !lanes_unlanes by exact Hw. reflexivity. Qed.
-
 (* ------------------------------------------------------------------ the recurrence and the loop invariant *)
 
 Fixpoint pflat (M acc : N) (l : list N) : list N :=
